@@ -31,7 +31,7 @@ func atomicCallOn(in ssa.Instruction, f *types.Var) (string, ssa.CallInstruction
 		return "", nil
 	}
 	sc := cl.Common().StaticCallee()
-	if sc == nil || sc.Signature.Recv() == nil {
+	if sc == nil || (sc.Signature.Recv() == nil && (sc.Origin() == nil || sc.Origin().Signature.Recv() == nil)) {
 		return "", nil
 	}
 	args := cl.Common().Args
@@ -40,6 +40,9 @@ func atomicCallOn(in ssa.Instruction, f *types.Var) (string, ssa.CallInstruction
 	}
 	if fv := fieldOrigin(args[0]); !sameField(fv, f) {
 		return "", nil
+	}
+	if o := sc.Origin(); o != nil {
+		return o.Name(), cl
 	}
 	return sc.Name(), cl
 }
@@ -188,7 +191,7 @@ func r13_3(c *RC) {
 	}
 	for _, s := range p.FieldMethodCalls(sb, "DeleteMin", "DeleteMinIf", "DeleteAll") {
 		cl := s.Instr.(ssa.CallInstruction)
-		name := cl.Common().StaticCallee().Name()
+		name := calleeName(cl)
 		key := "sendBuf." + name + "@" + fnName(s.Fn)
 		switch name {
 		case "DeleteAll":
